@@ -181,12 +181,17 @@ class C05(Prop):
             "(h1, h2c, TLS) with the real in-process reference and gRPC clients; detail 2: scripted client with the real in-process "
             "reference and gRPC servers. Compared: every send (name, instance of the serving server, address/cert match at the time "
             "of receipt, completed request), max concurrently alive, spawned = stopped, outcome keys + setup flag, start order. "
-            "c05.complete: one batch through runTestCasesForServer with a scripted response: server request + every completed request.")
+            "c05.complete: one batch through runTestCasesForServer with a scripted response: server request + every completed request. "
+            "c05.load: suite files below a temp dir (same base name in different directories in every run, non-yaml names, missing "
+            "paths, a path twice, two files defining one suite) through the real testsuites.LoadTestSuitesFromFiles + parseTestSuites "
+            "(compared: error class or the loaded suites) and through the real Run() with child peers (compared: the test names handed "
+            "to the client, the printed total).")
     trusted_base = ("Coq 8.16.1 kernel (vm_compute used, native_compute not)", "extraction (ExtrOcamlBasic only) + ocaml/driver.ml",
                     "vlib generators/comparator, Go overlay harness (harness/C05): coordinator, scripted peer processes",
                     "modelled not verified: golang.org/x/sync/semaphore.Weighted (a counter bounded by MaxServers), sync.WaitGroup, "
                     "goroutine scheduling (one action per semaphore op / process start / exit / message), os/exec")
-    assumptions = ("the library (C07), the name matcher (C08), the client multiplexer (C10: each request sent is answered by one "
+    assumptions = ("--test-file paths are read literally (no '.'/'..' elements naming one file twice); suite expansion of a loaded file is C07's",
+                   "the library (C07), the name matcher (C08), the client multiplexer (C10: each request sent is answered by one "
                    "Answer action) and the in-batch fault handling (C11) are interfaces: C05's theorems hold for every library, "
                    "every selection predicate and every answer order",
                    "the client process stays up (run() leaves early through the isRunning check otherwise: C04/C10)",
@@ -197,12 +202,15 @@ class C05(Prop):
                   "permutation of a finished run is sent exactly once or recorded as setup failure; each send happens while the server "
                   "spawned for that batch's instance is serving, with its address and certificate and the name header; never more than "
                   "MaxServers server processes exist; every spawned server has exited at the end; every action lowers a measure and a "
-                  "non-final state always has an enabled action. Tied to the Go code by lockstep differential runs of the real run() "
-                  "against scripted peer processes.")
+                  "non-final state always has an enabled action; and the loader of --test-file suite files keeps one entry per distinct "
+                  "path with that file's content, so every given file's permutations are in the library the run is planned from. "
+                  "Tied to the Go code by lockstep differential runs of the real run() against scripted peer processes and by runs of the "
+                  "real loader / Run() on generated suite files.")
     level_note = ("Trusted: Coq kernel, extraction, OCaml driver, harness. Model-code correspondence is sampled, not proved; goroutine "
                   "interleavings inside a burst are the Go runtime's (free-running and -race runs sample them). semaphore.Weighted, "
                   "WaitGroup and os/exec are modelled, not verified. Crash of a server in the middle of a batch and client death are "
-                  "C11/C10/C04's (not modelled here).")
+                  "C11/C10/C04's (not modelled here). The flag layer of cmd/connectconformance (--port forcing --max-servers=1) is not "
+                  "modelled: the property bounds by --max-servers as given to Run (seed C05-16 triaged out of scope).")
     technique = "Coq invariant proofs over arbitrary schedules of a transition system; lockstep differential against scripted peer processes"
     go_timeout = 1500
 
